@@ -59,6 +59,14 @@ def _seeded_mutants(prop):
             meta = json.load(open(mp))
         except ValueError:
             continue
+        if meta.get("kind") == "benign-refactoring":
+            # a behaviour-preserving refactoring written by an independent agent: no check may report a violation on it;
+            # where the check was decided when the case was collected it must stay decided
+            if prop in meta.get("clean_for", []):
+                out.append({"name": "benign-" + d, "patch": pp, "expect": "clean", "canary": False, "what": "behaviour-preserving refactoring %s: %s" % (d, meta.get("what", "")[:80])})
+            elif prop in meta.get("undecided_for", {}):
+                out.append({"name": "benign-" + d, "patch": pp, "expect": "no-alarm", "canary": False, "what": "behaviour-preserving refactoring %s (undecided accepted): %s" % (d, meta.get("what", "")[:80])})
+            continue
         if prop in meta.get("checks_reporting_it", []):
             out.append({"name": "seeded-" + d, "patch": pp, "expect": "violated", "rule": prop, "canary": False,
                         "what": "independently seeded change %s (target property %s)" % (d, meta.get("property"))})
@@ -176,6 +184,9 @@ def run(prop, mod, repo, tier, seed, jobs):
                     r["name"], r["outcome"], m.get("rule", prop)))
             if r["outcome"] == "broken-mutant":
                 failures.append("mutant '%s' %s" % (r["name"], r.get("why")))
+        elif m["expect"] == "no-alarm":
+            if r["outcome"] == "false-alarm":
+                failures.append("behaviour-preserving refactoring '%s' is reported as a violation: %s" % (r["name"], "; ".join(r.get("details", []))))
         else:
             if r["outcome"] in ("false-alarm", "benign-undecided"):
                 failures.append("benign transform '%s' changed the verdict (%s): %s" % (
